@@ -1006,7 +1006,14 @@ class Interp:
                 r = simplify_term(op.rstrip("?u"), a, b)
                 if op.endswith("?"):
                     # the overflow flag of checked arithmetic on a symbolic machine integer is itself symbolic
-                    ovf = Term("overflow", op.rstrip("?"), a, b) if (isinstance(r, Term) and self.track_overflow) else False
+                    width = None
+                    try:
+                        ty = fn.d["locals"][s["d"]["l"]]
+                        mw = re.match(r"^\((u8|u16|u32|u64|usize|i32|i64), bool\)$", ty)
+                        width = {"u8": 8, "u16": 16, "u32": 32, "u64": 64, "usize": 64, "i32": 31, "i64": 63}[mw.group(1)] if mw else None
+                    except Exception:
+                        width = None
+                    ovf = Term("overflow", op.rstrip("?"), a, b, width) if (isinstance(r, Term) and self.track_overflow) else False
                     return Agg([r, ovf], "tuple")
                 return r
         if is_field(a) or is_field(b):
